@@ -31,7 +31,7 @@ View == <<ci, S, clk, G, dead>>
 c == Charts[ci]
 
 TimedStates(ch) ==
-  {ch.trans[i].src : i \in {j \in DOMAIN ch.trans : ch.trans[j].gk \in {"after", "idle"}
+  {ch.trans[i].src : i \in {j \in DOMAIN ch.trans : ch.trans[j].gk \in {"after", "idle", "afterp", "idlep"}
                                                        \/ ch.trans[j].post + ch.trans[j].inv > 0}}
   \cup {s \in States(ch) : ch.spost[s] + ch.sinv[s] > 0}
 HistParents(ch) == {ch.parent[h] : h \in {s \in States(ch) : IsHistory(ch, s)}}
